@@ -11,13 +11,13 @@ PLANS = {
  "C01": P([("roundtrip", 60), ("boundary_reader", 38), ("boundary", 12), ("sparse_boundary", 3), ("reopen", 10), ("bigline", 2), ("interleave", 20), ("reopen_marker", 20)],
           [("roundtrip", 1500), ("boundary_reader", 380), ("boundary", 190), ("sparse_boundary", 24), ("reopen", 200), ("assets", 2), ("bigline", 10)]),
  "C02": P([("ranges", 70), ("boundary", 2), ("bigsection", 4), ("lastmeta", 12)], [("ranges", 2500), ("boundary", 40), ("index_states", 200), ("bigsection", 60)]),
- "C03": P([("refuse", 60), ("torn", 40), ("boundary", 6)], [("refuse", 1500), ("torn", 600), ("boundary", 60)]),
+ "C03": P([("refuse", 60), ("torn", 40), ("boundary", 6), ("lastmeta", 12)], [("refuse", 1500), ("torn", 600), ("boundary", 60)]),
  "C04": P([("reopen", 50), ("reopen_marker", 20), ("roundtrip", 20), ("bigline", 6), ("lastmeta", 6)],
           [("reopen", 1200), ("reopen_marker", 500), ("roundtrip", 400), ("bigline", 20), ("lastmeta", 60)], op_timeout_ms=20000),
  "C05": P([("torn", 90), ("index_states", 10), ("boundary", 19), ("boundary2", 6), ("lastmeta", 16)], [("torn", 3000), ("index_states", 300), ("boundary", 190), ("boundary2", 90), ("lastmeta", 160)]),
  "C06": P([("index_states", 50), ("roundtrip", 15), ("boundary", 38), ("boundary2", 10), ("sparse_boundary", 3), ("torn", 20), ("lastmeta", 16)],
           [("index_states", 1500), ("roundtrip", 300), ("boundary", 120), ("boundary2", 90), ("sparse_boundary", 30), ("lastmeta", 160)]),
- "C07": P([("format", 40), ("roundtrip", 25), ("assets", 2), ("reopen", 20), ("boundary_reader", 12)], [("format", 1200), ("roundtrip", 600), ("assets", 2), ("reopen", 300), ("boundary_reader", 100)]),
+ "C07": P([("format", 40), ("roundtrip", 25), ("assets", 2), ("reopen", 20), ("boundary_reader", 12), ("contract", 25)], [("format", 1200), ("roundtrip", 600), ("assets", 2), ("reopen", 300), ("boundary_reader", 100)]),
  "C08": P([("caches", 60), ("caches_rebuild", 20)], [("caches", 2000), ("caches_rebuild", 400)]),
  "C09": P([("caches_reopen", 40), ("caches_faults", 30), ("caches_rebuild", 40)], [("caches_reopen", 1200), ("caches_faults", 1200), ("caches_rebuild", 1200)]),
  "C10": P([("resample", 60)], [("resample", 2000), ("boundary", 10)]),
@@ -30,7 +30,7 @@ PLANS = {
  "C16": P([("roundtrip", 30), ("refuse", 20), ("caches", 20), ("ranges", 10), ("reopen", 40), ("interleave", 60), ("caches_reopen", 15)], [("roundtrip", 600), ("refuse", 500), ("caches", 600), ("ranges", 300), ("interleave", 1500), ("reopen", 400), ("caches_reopen", 400)]),
  "C17": P([("contract", 60), ("roundtrip", 10)], [("contract", 1500), ("roundtrip", 200)]),
  "C18": P([("corrupt", 80)], [("corrupt", 2500)]),
- "C19": P([("totality", 60), ("bigline", 6), ("cache_sections", 8), ("resample", 30), ("boundary_reader", 9)],
+ "C19": P([("totality", 60), ("bigline", 6), ("cache_sections", 8), ("resample", 30), ("boundary_reader", 9), ("contract", 25)],
           [("totality", 1500), ("bigline", 11), ("cache_sections", 60), ("resample", 300), ("contract", 200), ("boundary_reader", 76), ("boundary", 38)], totality=True, op_timeout_ms=20000),
 }
 
@@ -77,7 +77,9 @@ def properties_of_failure(rec, jf):
         elif k == "open":
             ps.add("C17")
             if c["torn"] or c["index_fault"]: ps.add("C05")
-            if not (c["torn"] or c["index_fault"] or c["cache_fault"] or c["corrupt"]): ps.add("C04")
+            if not (c["torn"] or c["index_fault"] or c["cache_fault"] or c["corrupt"]):
+                ps.add("C04")
+                if c["pushed"] or c["format"] or c["asset"]: ps.add("C07")   # an intact file laid out as documented is not read back at all
             if c["caches"]: ps.add("C09")
             if c["format"] or c["asset"]: ps.add("C07")
             if c["index_fault"]: ps.add("C06")
